@@ -9,6 +9,7 @@ import (
 	"encoding/hex"
 	"fmt"
 	"math/big"
+	"runtime"
 	"strconv"
 )
 
@@ -22,7 +23,7 @@ var (
 	thorough bool
 )
 
-func SetCase(inputs map[string]string) { cur = inputs; ObsLog = nil }
+func SetCase(inputs map[string]string) { cur = inputs; ObsLog = nil; allocLimit = -1 }
 func SetThorough(b bool)               { thorough = b }
 
 func get(name string) (string, bool) {
@@ -189,3 +190,27 @@ func Concrete(v uint64) bool { return true }
 
 // Option sets an engine option for this path (no-op natively).
 func Option(name string, v int) {}
+
+// AllocLimit: after this call any single slice allocation (make / reflect.MakeSlice) of more
+// than n elements on this path is reported as a violation "allocation beyond limit".
+func AllocLimit(n int) {
+	var ms runtime.MemStats
+	runtime.ReadMemStats(&ms)
+	allocBase = ms.TotalAlloc
+	allocLimit = n
+}
+
+var (
+	allocLimit = -1
+	allocBase  uint64
+)
+
+// allocExceeded is consulted by RunCases after the harness returned.
+func allocExceeded() bool {
+	if allocLimit < 0 {
+		return false
+	}
+	var ms runtime.MemStats
+	runtime.ReadMemStats(&ms)
+	return ms.TotalAlloc-allocBase > uint64(allocLimit)*256+(1<<20)
+}
